@@ -116,9 +116,10 @@ let handle (lines : string list) : unit =
     | x :: rest -> split (x :: acc) rest
     | [] -> (List.rev acc, []) in
   let (cfg, trace) = split [] lines in
-  let pool = ref [] and thr = ref [] and prm = ref sc_params and expl = ref None in
+  let pool = ref [] and thr = ref [] and prm = ref sc_params and expl = ref None and dsize = ref 24 in
   List.iter (fun l -> match words l with
     | "pool" :: w -> pool := w
+    | ["dsize"; d] -> dsize := int_of_string d
     | ["thr"; s] -> thr := parse_script s :: !thr
     | ["thr"] -> thr := [] :: !thr
     | "params" :: ps -> prm := params_of ps
@@ -127,11 +128,18 @@ let handle (lines : string list) : unit =
   let arr = Array.of_list (List.rev !thr) in
   let n = Array.length arr in
   let nn = nat_of_int n in
-  let ok_cap c = c >= 1 && c <= 64 in
-  if n <= 0 || n > 12 then print_endline "F badcase" else
+  let ok_cap c = c >= 0 && c <= 128 in
+  (* block geometry as the model's init computes it (C05/Model.v section 4) *)
+  let geom cap head bs =
+    Printf.printf "F geom bs=%s head=%s dsize=%d slab=%s\n" (string_of_z bs) (string_of_z head) !dsize
+      (string_of_z (slab_bytes (z_of_int cap) bs)) in
+  let dz = z_of_int !dsize in
+  if n <= 0 || n > 12 || !dsize < 1 || !dsize > 4096 then print_endline "F badcase" else
   match !pool with
+  | "ts" :: c :: _ when ok_cap (int_of_string c) && ts_init_cap (nat_of_int (int_of_string c)) = None ->
+    print_endline "F init refused"
   | "ts" :: c :: _ when ok_cap (int_of_string c) ->
-    let cap = next_pow2 (nat_of_int (int_of_string c)) in
+    let cap = (match ts_init_cap (nat_of_int (int_of_string c)) with Some k -> k | None -> O) in
     let st0 = tinit cap nn (scripts_fun arr) in
     (match !expl with
      | Some (sd, runs, goal) ->
@@ -144,23 +152,22 @@ let handle (lines : string list) : unit =
      | None ->
        let step = tstep sc_params in
        let (st, ok) = accept_trace step st0 cell_id choice_of note_of (none_enabled step n) trace in
-       if ok then ts_summary st)
+       if ok then (ts_summary st; geom (int_of_nat cap) head_ts (ts_block_size dz)))
   | ["sowr"; c; b] when ok_cap (int_of_string c) ->
-    let capn = int_of_nat (next_pow2 (nat_of_int (int_of_string c))) in
+    let capn = int_of_nat (match sowr_init_cap (nat_of_int (int_of_string c)) with Some k -> k | None -> O) in
     let base = z_of_string b in
     if Int64.rem (Int64.of_string ("0u" ^ b)) (Int64.of_int capn) <> 0L then print_endline "F badcase" else begin
       let st0 = sinit (z_of_int capn) base nn (scripts_fun arr) in
       let step = sstep sc_params in
       let (st, ok) = accept_trace step st0 cell_id choice_of note_of (none_enabled step n) trace in
-      if ok then sowr_summary capn st
+      if ok then (sowr_summary capn st; geom capn head_sowr (sowr_block_size dz))
     end
   | ["ring"; c; l] when ok_cap (int_of_string c) ->
-    let c = int_of_string c in
-    let cap = next_pow2 (nat_of_int (if c < 2 then 2 else c)) in
+    let cap = (match ring_init_cap (nat_of_int (int_of_string c)) with Some k -> k | None -> O) in
     let st0 = rinit cap nn (l <> "0") (scripts_fun arr) in
     let step = rstep sc_params in
     let (st, ok) = accept_trace step st0 cell_id choice_of note_of (none_enabled step n) trace in
-    if ok then ring_summary (int_of_nat cap) st
+    if ok then (ring_summary (int_of_nat cap) st; geom (int_of_nat cap) head_ring (ring_block_size dz))
   | _ -> print_endline "F badcase"
 
 let () = run_cases handle
